@@ -682,6 +682,52 @@ func runC20(p *core.Prog, r *core.Report) {
 	c20Links(p, r)
 	c20Lenient(p, r)
 	c20R4(p, r)
+	c20R5(p, r)
+}
+
+// c20R5: the directory of a layout reference is what the reference parser accepted. Code that puts a
+// path into a Ref itself (a composite literal, a field assignment) bypasses the grammar; when the path
+// is built from names a registry sent, a "../" in a name leaves the directory the user chose.
+func c20R5(p *core.Prog, r *core.Report) {
+	const rule = "C20.R5"
+	r.Rule(rule, "only the reference parsers decide a layout directory: the Path field of ref.Ref is stored only inside package types/ref (every ocidir path the schemes see went through the anchored path pattern of the parser)", 1)
+	rt := p.Named("types/ref", "Ref")
+	if rt == nil {
+		r.MissingAnchor(rule, "types/ref.Ref")
+		return
+	}
+	in, lab := 0, map[string]labeler{}
+	for _, fs := range fieldStores(p.ModFuncs, func(n *types.Named, f string) bool { return n == rt && f == "Path" }) {
+		fname := p.FuncName(fs.Fn)
+		if pk := core.FuncPkg(fs.Fn); pk != nil && pk.Path() == modPath("types/ref") {
+			in++
+			continue
+		}
+		if lab[fname] == nil {
+			lab[fname] = labeler{}
+		}
+		// copying the path of another reference (a value that is itself a Ref.Path) keeps the guarantee
+		if dependsOnlyOnRefPath(fs.Store.Val) {
+			r.Held(rule, fname, lab[fname].next("Ref.Path copied"), p.Pos(fs.Store.Pos()), "the path of another parsed reference")
+			continue
+		}
+		r.Violated(rule, fname, lab[fname].next("Ref.Path stored"), p.Pos(fs.Store.Pos()), "a layout directory is put into a reference without going through the reference parser: a name taken from a listing or an archive (\"../x\") is joined onto the directory the user chose and the layout is written outside it")
+	}
+	r.Check(in > 0, rule, "types/ref", "parsers store Path", "-", fmt.Sprintf("%d store(s) of Ref.Path inside types/ref", in))
+}
+
+// dependsOnlyOnRefPath: every origin of v is a load of the Path field of a ref.Ref.
+func dependsOnlyOnRefPath(v ssa.Value) bool {
+	os := core.Origins(v, core.SliceOpts{})
+	if len(os) == 0 {
+		return false
+	}
+	for _, o := range os {
+		if o.Kind != core.OField || o.Field != "Path" {
+			return false
+		}
+	}
+	return true
 }
 
 func c20Strict(p *core.Prog, r *core.Report, rule, rel string, floor int, text string) {
